@@ -247,6 +247,7 @@ def rule_wexpect(roles):
         return [bad('WEXPECT', 'WEXPECT|anchor', 'anchor lost: no body with signature (&mut Tokenizer, &str) -> Result<()> (the expected-token check)')]
     # comparisons between the inspected token's payload and the &str parameter
     cmp_true_edges = []
+    kind_problems = []
     for bb in sorted(e.live_blocks):
         t = e.blocks[bb]['term']
         if t['k'] != 'switch':
@@ -260,6 +261,16 @@ def rule_wexpect(roles):
         sides = [trace_operand(e, a, through_calls=THROUGH | {'std::string::ToString::to_string'}) for a in tc.args[:2]]
         is_param = [any(o.kind == 'param' and o.data == 2 for o in s) for s in sides]
         if not any(is_param):
+            continue
+        # the token side must be the payload of a punctuation-kind variant (extracted under a
+        # downcast), possibly rendered by a local helper of that payload
+        tok_side = sides[0] if is_param[1] else sides[1]
+        kinds = set()
+        for o in tok_side:
+            kinds |= _variant_of(e, o)
+        allowed = {'Operator', 'Delim', 'Comma', 'Semicolon'}
+        if not kinds or not kinds <= allowed:
+            kind_problems.append((tc, sorted(kinds)))
             continue
         truth_for_eq = 1 ^ parity ^ (1 if tc.callee.endswith('::ne') else 0)
         listed = [v for v, _ in t['targets']]
@@ -282,11 +293,27 @@ def rule_wexpect(roles):
     for c in e.live_calls:
         if c.dest['l'] == 0 and c.callee != FROM_RESIDUAL:
             obs.append(bad('WEXPECT', 'WEXPECT|tail|%s' % (c.rdef or c.callee), 'the expected-token check returns the result of %s' % (c.rdef or c.callee), c.where(), body=e.name))
+    for k, (tc, kinds) in enumerate(kind_problems):
+        obs.append(bad('WEXPECT', 'WEXPECT|kind|#%d' % k, 'the expected-token check compares the expected text with the text of a token of any kind (%s) instead of a punctuation token\'s payload: a string / name token spelled like the separator is accepted as the separator' % (kinds or 'no variant discrimination'), tc.where(), body=e.name, bb=tc.bb))
     obs.append(floor('WEXPECT', 'comparisons', len(cmp_true_edges), 1, 'the token must be compared with the expected text'))
     if n == 0:
         obs.append(bad('WEXPECT', 'WEXPECT|never-ok', 'the expected-token check has no success path', e.where(), body=e.name))
     # the check consumes the inspected token: a TOKEN-NEXT call on every Ok path is the companion
     return obs
+
+
+def _variant_of(body, o, depth=0):
+    """token variants under which the compared text was extracted: downcasts on the origin's
+    projection, looking through local single-argument helpers"""
+    out = {p[1] for p in o.proj if p[0] == 'dc' and p[1] not in ('Some', 'Ok', 'Continue')}
+    if out:
+        return out
+    if o.kind == 'callres' and depth < 3 and o.data.ruid is not None and len(o.data.args) == 1:
+        res = set()
+        for oo in trace_operand(body, o.data.args[0], through_calls=THROUGH):
+            res |= _variant_of(body, oo, depth + 1)
+        return res
+    return set()
 
 
 CLOSERS = {'List': ']', 'Map': '}', 'Function': ')'}
